@@ -1,4 +1,5 @@
 import RichModel.Model.Style
+import RichModel.Model.StyleCtor
 import RichModel.Drv.Proto
 /-
 Driver handlers for property C06 (Style algebra / text round trip / hashing).
@@ -8,12 +9,15 @@ Wire formats
             (rgbValueError addHash fromColorHash withoutColorHash updateLinkHash updateLinkDef emptyLink)
 * string  : space separated decimal code points ("" = empty)
 * optstr  : `-` (None) or `=` followed by a string
-* color   : `-` (None) or `name/type/number/triplet`, number `-`|n, triplet `-`|r.g.b
+* color   : `-` (None) or `name/type/number/triplet`, number `-`|n, triplet `-`|r.g.b   (a `Color(...)` value given field by field)
+            or a constructor call evaluated by the model: `@A`n = Color.from_ansi(n), `@T`r.g.b = Color.from_triplet(ColorTriplet(r,g,b)),
+            `@R`r4.g4.b4 = Color.from_rgb(r4/4, g4/4, b4/4), `@D` = Color.default()
 * style   : `color|bgcolor|attributes|set_attributes|link`
-* state   : style `|n`null `|d`optstr(_style_definition) `|s`str() `|a`13×(-,0,1) `|h`(stored hash key = key of fields) `|w`(Style.wf)
+* state   : style `|n`null `|d`optstr(_style_definition) `|s`str() `|a`13×(-,0,1) `|h`(stored hash key = key of fields) `|w`(Style.wf) `|t`(transparent_background)
 * route   : prefix term, tokens separated by `;`
     N | I;colorarg;colorarg;kw13;optstr | F;color;color | P;string | A;r;r | O;r | C;r | U;optstr;r
-    | W;r | T;r | H;n;r…r | B;r          colorarg = `-` | `S:`string | `C:`color
+    | W;r | T;r | H;n;r…r | B;r | K;n;(-|r)…  (Style.pick_first) | M;n;r;r…r (sum(rs, start))
+    colorarg = `-` | `S:`string | `C:`color
 Any string containing GREEK CAPITAL SIGMA (context-dependent `lower()`) makes the whole request `unmodelled`.
 * tables_lawful lo hi -> `ok` | first code point in [lo,hi) at which `StrTables.real` breaks `Lawful`
 * str_table cp       -> isspace(0/1) decimal(-|v) lower(code points) of one code point
@@ -49,8 +53,21 @@ def decType : String → Option ColorType
   | "0" => some .default | "1" => some .standard | "2" => some .eightBit
   | "3" => some .truecolor | "4" => some .windows | _ => none
 
+def decNat3 (s : String) : Option (Nat × Nat × Nat) :=
+  match s.splitOn "." with
+  | [r, g, b] => do
+    let r ← r.toNat?
+    let g ← g.toNat?
+    let b ← b.toNat?
+    pure (r, g, b)
+  | _ => none
+
 def decColor (s : String) : Option (Option Color) :=
   if s == "-" then some none
+  else if s == "@D" then some (some Color.mkDefault)
+  else if s.startsWith "@A" then (s.drop 2).toString.toNat?.map fun n => some (Color.fromAnsi n)
+  else if s.startsWith "@T" then (decNat3 (s.drop 2).toString).map fun (r, g, b) => some (Color.fromTriplet ⟨r, g, b⟩)
+  else if s.startsWith "@R" then (decNat3 (s.drop 2).toString).map fun (r, g, b) => some (Color.fromRgbQuarters r g b)
   else match s.splitOn "/" with
   | [n, t, num, trip] => do
     let name ← decS n
@@ -97,7 +114,8 @@ def encStyle (s : Style) : String :=
 def encState (v : StyleVariant) (s : Style) : String :=
   encStyle s ++ "|n" ++ encBool s.isNull ++ "|d" ++ encOptS s.styleDef ++ "|s" ++ encStr s.str ++
     "|a" ++ String.join ((List.range 13).map fun i => encTri (s.attr i)) ++
-    "|h" ++ encBool (decide (s.hashKey = s.fieldsKey)) ++ "|w" ++ encBool (Style.wfT T v s)
+    "|h" ++ encBool (decide (s.hashKey = s.fieldsKey)) ++ "|w" ++ encBool (Style.wfT T v s) ++
+    "|t" ++ encBool s.transparentBackground
 
 def encErr : StyleErr → String
   | .colorParse => "err:ColorParseError"
@@ -119,6 +137,8 @@ inductive Route where
   | touch (a : Route)
   | chain (rs : List Route)
   | background (a : Route)
+  | pickFirst (rs : List (Option Route))
+  | sumFrom (start : Route) (rs : List Route)
 
 mutual
 /-- Decode one route from the token stream; `none` = malformed or outside the modelled domain. -/
@@ -153,7 +173,25 @@ partial def decRoute : List String → Option (Route × List String)
     let n ← n.toNat?
     let (rs, r) ← decRoutes n r
     pure (.chain rs, r)
+  | "K" :: n :: r => do
+    let n ← n.toNat?
+    let (rs, r) ← decOptRoutes n r
+    pure (.pickFirst rs, r)
+  | "M" :: n :: r => do
+    let n ← n.toNat?
+    let (a, r) ← decRoute r
+    let (rs, r) ← decRoutes n r
+    pure (.sumFrom a rs, r)
   | _ => none
+partial def decOptRoutes : Nat → List String → Option (List (Option Route) × List String)
+  | 0, r => some ([], r)
+  | n + 1, "-" :: r => do
+    let (as, r) ← decOptRoutes n r
+    pure (none :: as, r)
+  | n + 1, r => do
+    let (a, r) ← decRoute r
+    let (as, r) ← decOptRoutes n r
+    pure (some a :: as, r)
 partial def decRoutes : Nat → List String → Option (List Route × List String)
   | 0, r => some ([], r)
   | n + 1, r => do
@@ -181,10 +219,27 @@ partial def evalRoute (v : StyleVariant) : Route → Except StyleErr Style
   | .background a => do
     -- `background_style`: `Style(bgcolor=self.bgcolor)` (style.py:382-384)
     let a ← evalRoute v a
-    Style.initT T v none (a.bgcolor.map .color) [] none
+    Style.backgroundStyleT T v a
+  | .pickFirst rs => do
+    -- the arguments are evaluated first (left to right), then `pick_first` runs
+    let ss ← evalOptRoutes v rs
+    Style.pickFirst ss
+  | .sumFrom a rs => do
+    let a ← evalRoute v a
+    let ss ← evalRoutes v rs
+    pure (Style.sumFrom v a ss)
   | .chain rs => do
     let ss ← evalRoutes v rs
     Style.chain v ss
+partial def evalOptRoutes (v : StyleVariant) : List (Option Route) → Except StyleErr (List (Option Style))
+  | [] => .ok []
+  | none :: rs => do
+    let ss ← evalOptRoutes v rs
+    pure (none :: ss)
+  | some r :: rs => do
+    let s ← evalRoute v r
+    let ss ← evalOptRoutes v rs
+    pure (some s :: ss)
 partial def evalRoutes (v : StyleVariant) : List Route → Except StyleErr (List Style)
   | [] => .ok []
   | r :: rs => do
@@ -225,6 +280,16 @@ def handlers : List (String × (List String → String)) := [
   ("str_table_counts", fun _ =>
     toString Gen.strWhitespace.length ++ " " ++ toString (runLen Gen.strDecimalRuns) ++ " " ++
       toString (runLen Gen.strLowerRuns + Gen.strLowerSpecial.length) ++ " " ++ toString T.maxDigits),
+  -- a colour constructor call (`@…` form of `color`) -> the Color it returns, field by field, and
+  -- whether `Color.parse` of its name gives back the very same colour (Style.wfColorT)
+  ("color_ctor", fun a => match a with
+    | [fl, c] => answer do
+      let v ← decFlags fl
+      let c ← decColor c
+      let c ← c
+      pure (encColor (some c) ++ " wf=" ++ encBool (Style.wfColorT T v c) ++ " hex=" ++
+        (match c.triplet with | some t => encStr (Color.tripletHex t) ++ " rgb=" ++ encStr (Color.tripletRgb t) | none => "-"))
+    | _ => "bad-args"),
   ("color_parse", fun a => match a with
     | [fl, s] => answer do
       let v ← decFlags fl
